@@ -2,6 +2,7 @@ import NeumannModel.Common.Proto
 import NeumannModel.Codec.Model
 import NeumannModel.Codec.Sparse
 import NeumannModel.Codec.VecFormat
+import NeumannModel.Codec.Limits
 /- Line-protocol driver for the codec model (C20). -/
 open Neumann Neumann.Proto Neumann.Codec
 
@@ -42,6 +43,9 @@ def backTable (v : List Elem) (id : Nat) : Nat :=
   match v.find? (fun e => e.asU64 == id) with
   | some e => e.back
   | none => 0
+
+def showReqVerdict : ReqVerdict → String
+  | .ok => "ok" | .inverted => "inverted" | .tooMany => "too_many" | .zeroChunk => "zero_chunk" | .chunkTooLarge => "chunk_too_large"
 
 def codecStep (_ : Unit) (line : String) : Unit × String :=
   let bad := ((), "bad-op")
@@ -115,6 +119,12 @@ def codecStep (_ : Unit) (line : String) : Unit × String :=
           let c := compressVectorByPredicate (d != 0) (n != 0) v
           ((), showCV c ++ " | dec " ++ showNats (decompressVector (backTable v) c))
       | _, _, _ => bad
+  | ["vblock", mx, f, t] => match mx.toNat?, f.toNat?, t.toNat? with
+      | some m, some a, some b => ((), showReqVerdict (validateBlockRequest m a b)) | _, _, _ => bad
+  | ["vblock_wrapping", mx, f, t] => match mx.toNat?, f.toNat?, t.toNat? with
+      | some m, some a, some b => ((), showReqVerdict (validateBlockRequestWrapping m a b)) | _, _, _ => bad
+  | ["vsnap", mx, c] => match mx.toNat?, c.toNat? with
+      | some m, some k => ((), showReqVerdict (validateSnapshotRequest m k)) | _, _ => bad
   | _ => bad
 
 def main : IO Unit := run codecStep ()
